@@ -27,7 +27,7 @@ CLAIMED = {
     'C05': dict(
         cat='proof', ref='DESIGN 4/C05',
         text='Hand-off contracts: from_parser / into_input / into_request_parser / discard_stream / compress / parse state that the bytes handed on are exactly the unread suffix (raw view) in order, nothing lost or duplicated; parse never modifies or skips unread bytes.',
-        note='k-request corollary is the composition of the hand-off contracts (not a separate lemma). Vec::from(Box<[u8]>)/truncate trusted (R7).',
+        note='At the wire level the hand-off points are machine-checked lemmas: lemma_preamble_leaves_rest (unit reqsplit: whatever follows the preamble on the connection stays unread and does not influence the request, however much look-ahead is buffered) and lemma_s_stream_until_end (unit streamlemmas: the stream run stops in front of the terminating header). The k-request corollary is the composition of these with the verified conversion contracts along a connection (the loop doing so is async code, C07: not applicable). Vec::from(Box<[u8]>)/truncate trusted (R7).',
         tech=TECH_V),
     'C15': dict(
         cat='proof', ref='DESIGN 4/C15',
